@@ -1,12 +1,25 @@
 (* Proofs about the end-to-end model Event/E2E.v: the typing hypotheses of the Event theorems are discharged from
    the decoder / map / calibration theorems, and the event theorems are restated for the composed model. *)
-From Coq Require Import Floats Permutation Sorted.
+From Coq Require Import Permutation Sorted.
 From AG Require Import Base.Prelude Base.Res Base.Bytes Ident.Dispatch Gen.Boards Ident.Tables Gen.Calib.
 From AG Require Gen.WireMaps Gen.PadMaps.
 From AG Require Codec.Adc Codec.Adc_proofs Codec.Chunk Codec.Chunk_proofs Codec.Reasm Codec.Reasm_proofs
   Codec.Pwb Codec.Pwb_proofs Codec.Trg Codec.Trg_proofs Ident.Names Ident.Names_proofs Ident.Maps Ident.Maps_proofs.
 From AG Require Import Event.Event Event.EventSpec Event.Event_proofs Event.EventSpec_proofs Event.EventThm_proofs
-  Event.EventF64 Event.E2E.
+  Event.E2E.
+
+
+(* everything below holds for every sample type FT, calibration arithmetic fcal and reading gain_of of the tabulated
+   gains; Event/E2E64.v is the binary64 instance *)
+Section Generic.
+Variable FT : Type.
+Variable fcal : Z -> FT -> FT.
+Variable gain_of : Z * Z -> FT.
+Notation wire_cal_e2e := (E2E.wire_cal_e2e gain_of).
+Notation pad_cal_e2e := (E2E.pad_cal_e2e gain_of).
+Notation env_e2e_m := (E2E.env_e2e_m gain_of).
+Notation env_e2e := (E2E.env_e2e gain_of).
+Notation try_from_banks_model := (E2E.try_from_banks_model fcal gain_of).
 
 (* ------------------------------------------------------------------ the chunk identity is injective on bytes *)
 Ltac split_pos p n :=
@@ -157,7 +170,7 @@ Qed.
 
 Lemma wire_cal_i16 run w bl g dl : wire_cal_e2e run w = DOk (bl, g, dl) -> i16 bl.
 Proof.
-  unfold wire_cal_e2e. destruct (dispatch wire_baseline_arms run) as [bi|]; [|discriminate].
+  unfold E2E.wire_cal_e2e. destruct (dispatch wire_baseline_arms run) as [bi|]; [|discriminate].
   destruct (dispatch wire_gain_arms run) as [gi|]; [|discriminate].
   destruct (dispatch wire_delay_arms run) as [d|]; [|discriminate].
   destruct (lookup1 wire_baseline_tables bi w) as [b|] eqn:L; [|discriminate].
@@ -168,7 +181,7 @@ Proof.
 Qed.
 Lemma pad_cal_i16 run c r bl g dl : pad_cal_e2e run c r = DOk (bl, g, dl) -> i16 bl.
 Proof.
-  unfold pad_cal_e2e. destruct (dispatch pad_baseline_arms run) as [bi|]; [|discriminate].
+  unfold E2E.pad_cal_e2e. destruct (dispatch pad_baseline_arms run) as [bi|]; [|discriminate].
   destruct (dispatch pad_gain_arms run) as [gi|]; [|discriminate].
   destruct (dispatch pad_delay_arms run) as [d|]; [|discriminate].
   destruct (lookup2 pad_baseline_tables bi c r) as [b|] eqn:L; [|discriminate].
@@ -237,7 +250,7 @@ Qed.
 (* ------------------------------------------------------------------ (a) the typing hypotheses are discharged *)
 Theorem e2e_env_typed_m m run : env_typed (env_e2e_m m run).
 Proof.
-  constructor; cbn [env_e2e_m wire_pos pad_pos wire_cal pad_cal reasm].
+  constructor; cbn [E2E.env_e2e_m wire_pos pad_pos wire_cal pad_cal reasm].
   - intros b c w H. destruct (Maps.wire_position run b c) eqn:E; cbn in H; try discriminate. inv H.
     eapply wire_position_lt; eauto.
   - intros b ch c col row H. destruct (Maps.pad_position run b ch c) eqn:E; cbn in H; try discriminate. inv H.
@@ -258,7 +271,7 @@ Proof. apply (e2e_banks_typed_m Checked). Qed.
 Theorem e2e_build_total m run banks order : Forall bytes (map snd banks) ->
   try_from_banks_model m run banks order <> Panic.
 Proof.
-  intros H. unfold try_from_banks_model. apply build_total_lemma; [apply e2e_env_typed_m | apply e2e_banks_typed_m; auto].
+  intros H. unfold E2E.try_from_banks_model. apply build_total_lemma; [apply e2e_env_typed_m | apply e2e_banks_typed_m; auto].
 Qed.
 
 (* ------------------------------------------------------------------ the overflow mode does not matter anywhere *)
@@ -317,45 +330,45 @@ Qed.
 
 (* build depends on the environment only through the values of its five functions *)
 Section Ext.
-Variables (e e' : env float).
+Variables (e e' : env FT).
 Hypothesis Hwp : forall b c, wire_pos e b c = wire_pos e' b c.
 Hypothesis Hpp : forall b a c, pad_pos e b a c = pad_pos e' b a c.
 Hypothesis Hwc : forall w, wire_cal e w = wire_cal e' w.
 Hypothesis Hpc : forall c r, pad_cal e c r = pad_cal e' c r.
 Hypothesis Hre : forall cs, reasm e cs = reasm e' cs.
 
-Lemma step_wire_ext m nm ws nb nc d : step_wire fcal64 e m nm ws nb nc d = step_wire fcal64 e' m nm ws nb nc d.
+Lemma step_wire_ext m nm ws nb nc d : step_wire fcal e m nm ws nb nc d = step_wire fcal e' m nm ws nb nc d.
 Proof.
   unfold step_wire. destruct d as [|p]; auto. destruct (a_chan p); auto. destruct (negb _); auto.
   destruct (mem2 _ _); auto. destruct (a_wf p); auto. rewrite Hwp.
   destruct (wire_pos e' _ c); auto. destruct (negb _); auto. destruct (assocN a ws); auto. rewrite Hwc. reflexivity.
 Qed.
-Lemma loop_ext m banks : forall s, loop fcal64 e m s banks = loop fcal64 e' m s banks.
+Lemma loop_ext m banks : forall s, loop fcal e m s banks = loop fcal e' m s banks.
 Proof.
   induction banks as [|b t IH]; intros s; cbn [loop]; auto.
-  assert (E : step fcal64 e m s b = step fcal64 e' m s b).
+  assert (E : step fcal e m s b = step fcal e' m s b).
   { destruct b; cbn [step]; auto. rewrite step_wire_ext. reflexivity. }
-  rewrite E. destruct (step fcal64 e' m s b); cbn [bind]; auto.
+  rewrite E. destruct (step fcal e' m s b); cbn [bind]; auto.
 Qed.
-Lemma chan_loop_ext m p l : forall s, chan_loop fcal64 e m p s l = chan_loop fcal64 e' m p s l.
+Lemma chan_loop_ext m p l : forall s, chan_loop fcal e m p s l = chan_loop fcal e' m p s l.
 Proof.
   induction l as [|x t IH]; intros s; cbn [chan_loop]; auto.
-  assert (E : step_chan fcal64 e m p s x = step_chan fcal64 e' m p s x).
+  assert (E : step_chan fcal e m p s x = step_chan fcal e' m p s x).
   { unfold step_chan. destruct (fst x); auto. destruct (unwrap _); cbn [bind]; auto. rewrite Hpp.
     destruct (pad_pos e' _ _ c) as [|[col r]]; auto. destruct (negb _); auto. destruct (mem2 _ _); auto.
     rewrite Hpc. reflexivity. }
-  rewrite E. destruct (step_chan fcal64 e' m p s x); cbn [bind]; auto.
+  rewrite E. destruct (step_chan fcal e' m p s x); cbn [bind]; auto.
 Qed.
-Lemma group_loop_ext m gs : forall s, group_loop fcal64 e m s gs = group_loop fcal64 e' m s gs.
+Lemma group_loop_ext m gs : forall s, group_loop fcal e m s gs = group_loop fcal e' m s gs.
 Proof.
   induction gs as [|cs t IH]; intros s; cbn [group_loop]; auto.
-  assert (E : step_group fcal64 e m s cs = step_group fcal64 e' m s cs).
+  assert (E : step_group fcal e m s cs = step_group fcal e' m s cs).
   { unfold step_group. rewrite Hre. destruct (reasm e' cs); auto. apply chan_loop_ext. }
-  rewrite E. destruct (step_group fcal64 e' m s cs); cbn [bind]; auto.
+  rewrite E. destruct (step_group fcal e' m s cs); cbn [bind]; auto.
 Qed.
-Lemma build_ext m order banks : build fcal64 e m order banks = build fcal64 e' m order banks.
+Lemma build_ext m order banks : build fcal e m order banks = build fcal e' m order banks.
 Proof.
-  unfold build. rewrite loop_ext. destruct (loop fcal64 e' m st0 banks); cbn [bind]; auto.
+  unfold build. rewrite loop_ext. destruct (loop fcal e' m st0 banks); cbn [bind]; auto.
   rewrite group_loop_ext. reflexivity.
 Qed.
 End Ext.
@@ -364,30 +377,30 @@ End Ext.
 Theorem e2e_build_no_wrap run banks order : Forall bytes (map snd banks) ->
   try_from_banks_model Checked run banks order = try_from_banks_model Wrapping run banks order.
 Proof.
-  intros H. unfold try_from_banks_model.
-  rewrite (build_no_wrap_lemma float fcal64 (env_e2e_m Checked run) order (decode_banks_m Checked banks)
+  intros H. unfold E2E.try_from_banks_model.
+  rewrite (build_no_wrap_lemma FT fcal (env_e2e_m Checked run) order (decode_banks_m Checked banks)
              (e2e_env_typed_m Checked run) (e2e_banks_typed_m Checked banks H)).
   rewrite (decode_banks_mode banks H).
-  apply build_ext; cbn [env_e2e_m wire_pos pad_pos wire_cal pad_cal reasm]; auto.
+  apply build_ext; cbn [E2E.env_e2e_m wire_pos pad_pos wire_cal pad_cal reasm]; auto.
   apply reasm_e2e_mode.
 Qed.
 
 (* the mode parameter of the environment and of the bank decoder is immaterial *)
 Theorem e2e_mode_irrelevant m run banks order : Forall bytes (map snd banks) ->
   try_from_banks_model m run banks order =
-  build fcal64 (env_e2e run) m order (map (fun nd => decode_bank (fst nd) (snd nd)) banks).
+  build fcal (env_e2e run) m order (map (fun nd => decode_bank (fst nd) (snd nd)) banks).
 Proof.
-  intros H. destruct m; [reflexivity|]. unfold try_from_banks_model, env_e2e.
+  intros H. destruct m; [reflexivity|]. unfold E2E.try_from_banks_model, E2E.env_e2e.
   change (map (fun nd => decode_bank (fst nd) (snd nd)) banks) with (decode_banks_m Checked banks).
   rewrite (decode_banks_mode banks H).
-  apply build_ext; cbn [env_e2e_m wire_pos pad_pos wire_cal pad_cal reasm]; auto.
+  apply build_ext; cbn [E2E.env_e2e_m wire_pos pad_pos wire_cal pad_cal reasm]; auto.
   intros cs. symmetry. apply reasm_e2e_mode.
 Qed.
 
 (* ------------------------------------------------------------------ (c) the run's wire map is one-to-one (C08) *)
 Theorem e2e_wire_pos_injective m run : wire_pos_injective (env_e2e_m m run).
 Proof.
-  intros b c b' c' w H H'. cbn [env_e2e_m wire_pos] in H, H'.
+  intros b c b' c' w H H'. cbn [E2E.env_e2e_m wire_pos] in H, H'.
   destruct (Maps.wire_position run b c) eqn:E; cbn in H; try discriminate. inv H.
   destruct (Maps.wire_position run b' c') eqn:E'; cbn in H'; try discriminate. inv H'.
   eapply wire_position_inj; eauto.
@@ -416,7 +429,7 @@ Qed.
 
 Theorem e2e_reasm_perm m run : reasm_perm (env_e2e_m m run).
 Proof.
-  intros cs cs' P. cbn [env_e2e_m reasm]. unfold reasm_e2e.
+  intros cs cs' P. cbn [E2E.env_e2e_m reasm]. unfold reasm_e2e.
   destruct (chunks_of_views m cs) as [ks|] eqn:E.
   - destruct (chunks_of_views_perm m cs cs' P ks E) as (ks' & E' & Q). rewrite E'.
     rewrite (Reasm_proofs.reasm_perm pwb_devices m Pwb.pwb (Pwb.pwb_decode pwb_macs m) Reasm.isort_by_id
@@ -433,7 +446,7 @@ Theorem e2e_build_perm_invariant m run banks banks' order order' :
   (forall ev ev', try_from_banks_model m run banks order = Ok ev ->
                   try_from_banks_model m run banks' order' = Ok ev' -> ev_eq ev ev').
 Proof.
-  intros H P O O'. unfold try_from_banks_model.
+  intros H P O O'. unfold E2E.try_from_banks_model.
   apply build_perm_invariant_lemma; auto using e2e_env_typed_m, e2e_banks_typed_m, e2e_wire_pos_injective, e2e_reasm_perm.
   unfold decode_banks_m. apply Permutation_map. exact P.
 Qed.
@@ -443,22 +456,22 @@ Theorem e2e_group_order_irrelevant m run banks order order' :
   (forall ev ev', try_from_banks_model m run banks order = Ok ev ->
                   try_from_banks_model m run banks order' = Ok ev' -> ev_eq ev ev').
 Proof.
-  intros H O O'. unfold try_from_banks_model.
+  intros H O O'. unfold E2E.try_from_banks_model.
   apply group_order_irrelevant_lemma; auto using e2e_env_typed_m, e2e_banks_typed_m, e2e_wire_pos_injective.
 Qed.
 
 (* ------------------------------------------------------------------ C10 for the composed model *)
 Theorem e2e_build_sound m run banks order ev : Forall bytes (map snd banks) -> is_order order ->
   try_from_banks_model m run banks order = Ok ev ->
-  event_spec fcal64 (env_e2e_m m run) (decode_banks_m m banks) ev.
+  event_spec fcal (env_e2e_m m run) (decode_banks_m m banks) ev.
 Proof.
   intros H O B. eapply build_sound; eauto using e2e_env_typed_m, e2e_banks_typed_m.
 Qed.
 Theorem e2e_build_spec_iff m run banks ev : Forall bytes (map snd banks) ->
   ((exists order ev', is_order order /\ try_from_banks_model m run banks order = Ok ev' /\ ev_eq ev' ev) <->
-   event_spec fcal64 (env_e2e_m m run) (decode_banks_m m banks) ev).
+   event_spec fcal (env_e2e_m m run) (decode_banks_m m banks) ev).
 Proof.
-  intros H. unfold try_from_banks_model.
+  intros H. unfold E2E.try_from_banks_model.
   apply build_spec_iff_lemma; auto using e2e_env_typed_m, e2e_banks_typed_m, e2e_wire_pos_injective.
 Qed.
 
@@ -483,14 +496,14 @@ Notation D := (decode_banks_m m banks).
 
 Lemma e2e_reject_unknown_name n d : In (n, d) banks -> (forall k, Names.parse_main n <> Ok k) -> rejected.
 Proof.
-  intros I U. apply (reject_unknown_name float fcal64 E m order D T B O).
+  intros I U. apply (reject_unknown_name FT fcal E m order D T B O).
   apply (in_decoded m) in I. unfold decode_bank_m in I.
   destruct (Names.parse_main n) as [k| |]; [exfalso; eapply U; eauto | exact I | exact I].
 Qed.
 Lemma e2e_reject_malformed_wire_payload n d b c : In (n, d) banks -> Names.parse_main n = Ok (Names.KAdc32 b c) ->
   (forall f, Adc.adc_decode adc_macs m d <> Ok f) -> rejected.
 Proof.
-  intros I P U. apply (reject_malformed_wire float fcal64 E m order D T B O b c).
+  intros I P U. apply (reject_malformed_wire FT fcal E m order D T B O b c).
   apply (in_decoded m) in I. unfold decode_bank_m, adc_view in I. rewrite P in I.
   destruct (Adc.adc_decode adc_macs m d) as [f| |]; [exfalso; eapply U; eauto | exact I | exact I].
 Qed.
@@ -498,14 +511,14 @@ Lemma e2e_reject_bv_channel_in_wire_bank n d b c f : In (n, d) banks -> Names.pa
   Adc.adc_decode adc_macs m d = Ok f -> Adc.a_chan f < 128 -> rejected.
 Proof.
   intros I P A L. apply (in_decoded m) in I. unfold decode_bank_m, adc_view in I. rewrite P, A in I.
-  apply (reject_bv_channel float fcal64 E m order D T B O b c (adcv_of f) (Adc.a_chan f) I).
+  apply (reject_bv_channel FT fcal E m order D T B O b c (adcv_of f) (Adc.a_chan f) I).
   unfold adcv_of; cbn [a_chan]. apply N.ltb_lt in L. rewrite L. reflexivity.
 Qed.
 Lemma e2e_reject_wire_channel_mismatch n d b c f : In (n, d) banks -> Names.parse_main n = Ok (Names.KAdc32 b c) ->
   Adc.adc_decode adc_macs m d = Ok f -> 128 <= Adc.a_chan f -> Adc.a_chan f - 128 <> c -> rejected.
 Proof.
   intros I P A L Ne. apply (in_decoded m) in I. unfold decode_bank_m, adc_view in I. rewrite P, A in I.
-  apply (reject_channel_mismatch float fcal64 E m order D T B O b c (adcv_of f) (Adc.a_chan f - 128) I); [|exact Ne].
+  apply (reject_channel_mismatch FT fcal E m order D T B O b c (adcv_of f) (Adc.a_chan f - 128) I); [|exact Ne].
   unfold adcv_of; cbn [a_chan]. apply N.ltb_ge in L. rewrite L. reflexivity.
 Qed.
 Lemma e2e_reject_wire_board_mismatch n d b c f lg b' : In (n, d) banks -> Names.parse_main n = Ok (Names.KAdc32 b c) ->
@@ -513,14 +526,14 @@ Lemma e2e_reject_wire_board_mismatch n d b c f lg b' : In (n, d) banks -> Names.
   rejected.
 Proof.
   intros I P A L R Ne. apply (in_decoded m) in I. unfold decode_bank_m, adc_view in I. rewrite P, A in I.
-  apply (reject_board_mismatch float fcal64 E m order D T B O b c (adcv_of f) b' I); [|exact Ne].
+  apply (reject_board_mismatch FT fcal E m order D T B O b c (adcv_of f) b' I); [|exact Ne].
   unfold adcv_of; cbn [a_board]. rewrite L. exact R.
 Qed.
 Lemma e2e_reject_duplicate_wire_bank l1 l2 l3 n d1 d2 b c : banks = l1 ++ (n, d1) :: l2 ++ (n, d2) :: l3 ->
   Names.parse_main n = Ok (Names.KAdc32 b c) -> rejected.
 Proof.
   intros S P.
-  apply (reject_duplicate_wire float fcal64 E m order D T B O (decode_banks_m m l1) (decode_banks_m m l2)
+  apply (reject_duplicate_wire FT fcal E m order D T B O (decode_banks_m m l1) (decode_banks_m m l2)
            (decode_banks_m m l3) b c (adc_view m d1) (adc_view m d2)).
   rewrite S, decoded_split. cbn [fst snd]. unfold decode_bank_m. rewrite P. reflexivity.
 Qed.
@@ -529,24 +542,24 @@ Lemma e2e_reject_missing_wire_map n d b c f lg : In (n, d) banks -> Names.parse_
   (forall w, Maps.wire_position run b c <> Ok w) -> rejected.
 Proof.
   intros I P A L W U. apply (in_decoded m) in I. unfold decode_bank_m, adc_view in I. rewrite P, A in I.
-  apply (reject_missing_wire_map float fcal64 E m order D T B O b c (adcv_of f) I).
+  apply (reject_missing_wire_map FT fcal E m order D T B O b c (adcv_of f) I).
   - unfold adcv_of; cbn [a_wf]. rewrite L. exact W.
-  - cbn [env_e2e_m wire_pos]. destruct (Maps.wire_position run b c) as [w| |]; [exfalso; eapply U; eauto | |]; reflexivity.
+  - cbn [E2E.env_e2e_m wire_pos]. destruct (Maps.wire_position run b c) as [w| |]; [exfalso; eapply U; eauto | |]; reflexivity.
 Qed.
 Lemma e2e_reject_missing_wire_calibration n d b c f lg w : In (n, d) banks -> Names.parse_main n = Ok (Names.KAdc32 b c) ->
   Adc.adc_decode adc_macs m d = Ok f -> Adc.a_long f = Some lg -> Adc.al_wave lg <> [] ->
   Maps.wire_position run b c = Ok w -> wire_cal_e2e run w = DErr -> rejected.
 Proof.
   intros I P A L W Q C. apply (in_decoded m) in I. unfold decode_bank_m, adc_view in I. rewrite P, A in I.
-  apply (reject_missing_wire_calibration float fcal64 E m order D T B O b c (adcv_of f) w I).
+  apply (reject_missing_wire_calibration FT fcal E m order D T B O b c (adcv_of f) w I).
   - unfold adcv_of; cbn [a_wf]. rewrite L. exact W.
-  - cbn [env_e2e_m wire_pos]. rewrite Q. reflexivity.
+  - cbn [E2E.env_e2e_m wire_pos]. rewrite Q. reflexivity.
   - exact C.
 Qed.
 Lemma e2e_reject_malformed_chunk n d b : In (n, d) banks -> Names.parse_main n = Ok (Names.KPwb b) ->
   (forall c, Chunk.chunk_decode pwb_devices m d <> Ok c) -> rejected.
 Proof.
-  intros I P U. apply (reject_malformed_chunk float fcal64 E m order D T B O b).
+  intros I P U. apply (reject_malformed_chunk FT fcal E m order D T B O b).
   apply (in_decoded m) in I. unfold decode_bank_m, chunk_view in I. rewrite P in I.
   destruct (Chunk.chunk_decode pwb_devices m d) as [c| |]; [exfalso; eapply U; eauto | exact I | exact I].
 Qed.
@@ -554,29 +567,29 @@ Lemma e2e_reject_pad_board_mismatch n d b c : In (n, d) banks -> Names.parse_mai
   Chunk.chunk_decode pwb_devices m d = Ok c -> row_or_none (pwb_row_of_dev (Chunk.c_dev c)) <> b -> rejected.
 Proof.
   intros I P A Ne. apply (in_decoded m) in I. unfold decode_bank_m, chunk_view in I. rewrite P, A in I.
-  apply (reject_pad_board_mismatch float fcal64 E m order D T B O b (chunkv_of d c) I). exact Ne.
+  apply (reject_pad_board_mismatch FT fcal E m order D T B O b (chunkv_of d c) I). exact Ne.
 Qed.
 Lemma e2e_reject_malformed_pwb_packet k0 : In k0 (gkeys D) -> reasm_e2e m (group k0 D) = DErr -> rejected.
-Proof. exact (reject_malformed_pwb_packet float fcal64 E m order D T B O k0). Qed.
+Proof. exact (reject_malformed_pwb_packet FT fcal E m order D T B O k0). Qed.
 Lemma e2e_reject_missing_pad_map k0 p pc wf : In k0 (gkeys D) -> reasm_e2e m (group k0 D) = DOk p ->
   In (Pad pc, wf) (p_sent p) -> (forall pos, Maps.pad_position run (p_board p) (p_chip p) pc <> Ok pos) -> rejected.
 Proof.
-  intros I R S U. apply (reject_missing_pad_map float fcal64 E m order D T B O k0 p pc wf I R S).
-  cbn [env_e2e_m pad_pos]. destruct (Maps.pad_position run (p_board p) (p_chip p) pc); [exfalso; eapply U; eauto | |]; reflexivity.
+  intros I R S U. apply (reject_missing_pad_map FT fcal E m order D T B O k0 p pc wf I R S).
+  cbn [E2E.env_e2e_m pad_pos]. destruct (Maps.pad_position run (p_board p) (p_chip p) pc); [exfalso; eapply U; eauto | |]; reflexivity.
 Qed.
 Lemma e2e_reject_missing_pad_calibration k0 p pc wf c r : In k0 (gkeys D) -> reasm_e2e m (group k0 D) = DOk p ->
   In (Pad pc, wf) (p_sent p) -> Maps.pad_position run (p_board p) (p_chip p) pc = Ok (c, r) ->
   pad_cal_e2e run c r = DErr -> rejected.
 Proof.
-  intros I R S Q C. apply (reject_missing_pad_calibration float fcal64 E m order D T B O k0 p pc wf c r I R S); [|exact C].
-  cbn [env_e2e_m pad_pos]. rewrite Q. reflexivity.
+  intros I R S Q C. apply (reject_missing_pad_calibration FT fcal E m order D T B O k0 p pc wf c r I R S); [|exact C].
+  cbn [E2E.env_e2e_m pad_pos]. rewrite Q. reflexivity.
 Qed.
 Lemma e2e_reject_duplicate_pad_signal : ~ NoDup (pad_claims E D) -> rejected.
-Proof. exact (reject_duplicate_pad float fcal64 E m order D T B O). Qed.
+Proof. exact (reject_duplicate_pad FT fcal E m order D T B O). Qed.
 Lemma e2e_reject_malformed_trg n d : In (n, d) banks -> Names.parse_main n = Ok Names.KTrg ->
   (forall t, Trg.trg_decode d <> Ok t) -> rejected.
 Proof.
-  intros I P U. apply (reject_malformed_trg float fcal64 E m order D T B O).
+  intros I P U. apply (reject_malformed_trg FT fcal E m order D T B O).
   apply (in_decoded m) in I. unfold decode_bank_m, trg_view in I. rewrite P in I.
   destruct (Trg.trg_decode d) as [t| |]; [exfalso; eapply U; eauto | exact I | exact I].
 Qed.
@@ -584,15 +597,107 @@ Lemma e2e_reject_duplicate_trg l1 l2 l3 n d1 d2 : banks = l1 ++ (n, d1) :: l2 ++
   Names.parse_main n = Ok Names.KTrg -> rejected.
 Proof.
   intros S P.
-  apply (reject_duplicate_trg float fcal64 E m order D T B O (decode_banks_m m l1) (decode_banks_m m l2)
+  apply (reject_duplicate_trg FT fcal E m order D T B O (decode_banks_m m l1) (decode_banks_m m l2)
            (decode_banks_m m l3) (trg_view d1) (trg_view d2)).
   rewrite S, decoded_split. cbn [fst snd]. unfold decode_bank_m. rewrite P. reflexivity.
 Qed.
 Lemma e2e_reject_missing_trg : (forall n d, In (n, d) banks -> Names.parse_main n <> Ok Names.KTrg) -> rejected.
 Proof.
-  intros U. apply (reject_missing_trg float fcal64 E m order D T B O). intros t I.
+  intros U. apply (reject_missing_trg FT fcal E m order D T B O). intros t I.
   unfold decode_banks_m in I. apply in_map_iff in I as ([n d] & Q & I). cbn [fst snd] in Q.
   specialize (U n d I). unfold decode_bank_m in Q.
   destruct (Names.parse_main n) as [k| |]; try discriminate. destruct k; try discriminate. apply U. reflexivity.
 Qed.
 End Rejections.
+
+(* ------------------------------------------------------------------ no component panics: mapping Panic to DErr hides nothing *)
+Lemma wire_position_no_panic run b ch : ch < 32 -> Maps.wire_position run b ch <> Panic.
+Proof.
+  intros Hc. destruct (Maps.wire_dispatch run) as [id|] eqn:D.
+  2:{ unfold Maps.wire_position. rewrite D. cbn. discriminate. }
+  destruct (Maps_proofs.wire_map_bijective_lemma run id D) as (T & _ & S).
+  destruct (S 0) as (b0 & ch0 & _ & _ & E0); [reflexivity|].
+  assert (X : In b (Maps.wire_boards (fst id)) \/ forall pm, Names.nthN Gen.WireMaps.preamp_tables (fst id) = Some pm ->
+              Maps.hm_get Maps.opt_eqb (Some b) (Maps.preamp_rows pm) None = None).
+  { unfold Maps.wire_boards. destruct (Names.nthN Gen.WireMaps.preamp_tables (fst id)) as [pm|]; [|right; discriminate].
+    destruct (Maps.hm_get Maps.opt_eqb (Some b) (Maps.preamp_rows pm) None) as [pp|] eqn:G.
+    - left. apply hm_get_some in G as [G|(k' & I' & Q)]; [discriminate|].
+      unfold Maps.preamp_rows in I'. apply in_map_iff in I' as (r & E & Hr). inv E.
+      unfold Maps.opt_eqb in Q. destruct (Names.find_a16 (fst r)) as [b'|] eqn:F; [|discriminate].
+      apply N.eqb_eq in Q. subst b'. apply in_flat_map. exists r. split; [exact Hr|]. rewrite F. left; reflexivity.
+    - right. intros pm' Q. inv Q. exact G. }
+  destruct X as [Hb|Hn].
+  - destruct (T b ch Hb Hc) as (w & E & _). rewrite E. discriminate.
+  - unfold Maps.wire_position, Maps.wire_position_d in *. rewrite D in *. destruct id as [p c]. cbn [fst] in Hn.
+    destruct (Names.nthN Gen.WireMaps.preamp_tables p) as [pm|]; [|discriminate]. cbn [unwrap bind] in *.
+    destruct (Names.nthN Gen.WireMaps.channel_tables c) as [cm|]; [|discriminate]. cbn [unwrap bind] in *.
+    unfold Maps.wire_position_in in *. destruct (negb (Maps.preamp_keys_ok pm)); [discriminate|].
+    rewrite (Hn pm eq_refl). cbn. discriminate.
+Qed.
+
+Lemma pad_position_no_panic run b a ch : a <= 3 -> 1 <= ch <= 72 -> Maps.pad_position run b a ch <> Panic.
+Proof.
+  intros Ha Hch. destruct (Maps.pwb_dispatch run) as [t|] eqn:D.
+  2:{ unfold Maps.pad_position. rewrite D. cbn. discriminate. }
+  destruct (Maps_proofs.pad_map_bijective_lemma run t D) as (L & T & _ & _).
+  assert (Ia : In a Gen.PadMaps.gen_after_ids).
+  { change Gen.PadMaps.gen_after_ids with [0; 1; 2; 3]. cbn. lia. }
+  assert (Ic : In ch Maps.pad_channels) by (apply Maps_proofs.In_pad_channels; exact Hch).
+  destruct (Maps.pwb_installed t) as [|b0 rest] eqn:Inst; [cbn in L; discriminate|].
+  destruct (T b0 a ch (or_introl eq_refl) Ia Ic) as (c0 & w0 & E0 & _).
+  assert (X : In b (b0 :: rest) \/ forall tbl, Names.nthN Gen.PadMaps.pwb_tables t = Some tbl ->
+              Maps.hm_get Maps.opt_eqb (Some b) (Maps.pwb_rows tbl) None = None).
+  { rewrite <- Inst. unfold Maps.pwb_installed. destruct (Names.nthN Gen.PadMaps.pwb_tables t) as [tbl|]; [|right; discriminate].
+    destruct (Maps.hm_get Maps.opt_eqb (Some b) (Maps.pwb_rows tbl) None) as [bp|] eqn:G.
+    - left. apply hm_get_some in G as [G|(k' & I' & Q)]; [discriminate|].
+      unfold Maps.opt_eqb in Q. destruct k' as [b'|]; [|discriminate]. apply N.eqb_eq in Q. subst b'.
+      apply in_flat_map. exists (Some b, bp). split; [exact I'|]. left; reflexivity.
+    - right. intros tbl' Q. inv Q. exact G. }
+  destruct X as [Hb|Hn].
+  - destruct (T b a ch Hb Ia Ic) as (c & w & E & _). rewrite E. discriminate.
+  - unfold Maps.pad_position, Maps.pad_position_d, Maps.pad_position_c, Maps.pad_ctx in *. rewrite D in *.
+    destruct (Names.nthN Gen.PadMaps.pwb_tables t) as [tbl|]; [|discriminate]. cbn [unwrap bind] in *.
+    unfold Maps.pwb_map in *. destruct (negb (Maps.pwb_rows_ok tbl)); [discriminate|]. cbn [bind] in *.
+    unfold Maps.pwb_position_in at 1. rewrite (Hn tbl eq_refl). cbn. discriminate.
+Qed.
+
+Theorem e2e_components_never_panic m :
+  (forall name, Names.utf8b name = true -> Names.parse_main name <> Panic) /\
+  (forall data, bytes data -> Adc.adc_decode adc_macs m data <> Panic /\
+                              Chunk.chunk_decode pwb_devices m data <> Panic /\ Trg.trg_decode data <> Panic) /\
+  (forall cs ks, chunks_of_views m cs = Some ks ->
+     Reasm.reasm pwb_devices m Reasm.isort_by_id Pwb.pwb (Pwb.pwb_decode pwb_macs m) ks <> Panic) /\
+  (forall f c, Pwb.pwb_fields_ok pwb_macs f -> In c (Pwb.p_sent f) -> exists w, Pwb.waveform_at m f c = Ok (Some w)) /\
+  (forall run b ch, ch < 32 -> Maps.wire_position run b ch <> Panic) /\
+  (forall run b a ch, a <= 3 -> 1 <= ch <= 72 -> Maps.pad_position run b a ch <> Panic).
+Proof.
+  split; [intros name U; apply (Names_proofs.names_total_lemma name U)|].
+  split; [intros data Hb; split; [apply Adc_proofs.adc_total_lemma; auto|
+                                  split; [apply Chunk_proofs.chunk_total_lemma; auto|apply Trg_proofs.trg_total_lemma; auto]]|].
+  split.
+  { intros cs ks E. apply Reasm_proofs.reasm_total; [apply Reasm_proofs.isort_admissible|eapply chunks_of_views_ok; eauto|].
+    intros l Hl. apply Pwb_proofs.pwb_total_lemma; auto. }
+  split.
+  { intros f c Hok Hc. destruct (Pwb_proofs.waveform_at_block_lemma pwb_macs m f c Hok Hc) as (k & w & _ & _ & Hat & _).
+    exists w. exact Hat. }
+  split; [intros; apply wire_position_no_panic; auto | intros; apply pad_position_no_panic; auto].
+Qed.
+
+(* the maps are only asked about channels in those ranges *)
+Lemma adc_view_chan m d p c : bytes d -> adc_view m d = DOk p -> a_chan p = A32 c -> c < 32.
+Proof.
+  unfold adc_view. intros Hb H. destruct (Adc.adc_decode adc_macs m d) as [f| |] eqn:E; try discriminate. inv H.
+  apply (Adc_proofs.adc_exact_lemma adc_macs m d f Hb) in E. destruct E as [(_ & _ & R & _) _].
+  unfold adcv_of; cbn [a_chan]. destruct (Adc.a_chan f <? 128) eqn:Q; intros X; inv X. apply N.ltb_ge in Q. lia.
+Qed.
+Lemma reasm_e2e_args m cs p : reasm_e2e m cs = DOk p ->
+  p_chip p <= 3 /\ forall pc wf, In (Pad pc, wf) (p_sent p) -> 1 <= pc <= 72.
+Proof.
+  intros H. apply reasm_e2e_ok in H as (ks & f & _ & _ & -> & Hok).
+  destruct Hok as (C & _ & _ & _ & _ & _ & _ & _ & _ & [V _] & _). split; [exact C|].
+  intros pc wf I. unfold pwbv_of in I; cbn [p_sent] in I. apply in_map_iff in I as (c & E & Hc).
+  rewrite Forall_forall in V. specialize (V _ Hc).
+  destruct Pwb_proofs.readout_bijection_lemma as (_ & _ & _ & _ & RB & _). apply RB in V.
+  destruct c; cbn in E; inv E. exact V.
+Qed.
+End Generic.
